@@ -88,6 +88,8 @@ def g_single(presence_mode):
         S.inject(s.imol.data, [feed[R.IDS.index(c)] for c in ids])
         sig = f'{basis}/{pkg}'
         chems_before = s.chemicals
+        if E.choice(2, 'mass-view-created-before'):
+            s.imass
         try:
             r(s)
         except tmo.exceptions.InfeasibleRegion:
@@ -106,6 +108,15 @@ def g_single(presence_mode):
         E.prove('reactant-consumed-X-times-feed', conv[reactant], sig=sig)
         E.prove('stoichiometric-proportion', E.all(conv), sig=sig)
         S.check_invariant(E, s, 'stream', sig=sig)
+        # the same result read through the stream's mass view (own chemical order), also after a later write
+        def mass_view_ok():
+            md, mm = s.imol.data.dct, s.imass.data.dct
+            return E.all([near(E, (mm.get(k, 0.0) if k in md else 0.0), md.get(k, 0.0) * mw[R.IDS.index(c)], 1e-7) for k, c in enumerate(ids)])
+        E.prove('mass-view-of-the-stream-shows-the-result', mass_view_ok(), sig=sig)
+        w = E.real('w', nice=(0.5, 40))
+        E.assume(w > 0)
+        s.imol.data[E.choice(5, 'written')] = w
+        E.prove('mass-view-of-the-stream-follows-a-later-write', mass_view_ok(), sig=sig)
     return run
 
 
@@ -241,20 +252,37 @@ def g_phases():
         r = tmo.Reaction(d, reactant='Ethanol', X=X, chemicals=th.chemicals, basis='mol', phases='gl')
         if basis == 'wt':
             r.basis = 'wt'
-        ms = tmo.MultiStream(None, thermo=th, phases='gl')
+        pkg = E.pick(['same', 'other-order'], 'stream-pkg')
+        ths = th if pkg == 'same' else fx['thermoB']
+        ms = tmo.MultiStream(None, thermo=ths, phases='gl')
         order = ms.imol._phases
+        ids = list(ths.chemicals.IDs)
         feed = {}
         for ph in order:
-            feed[ph] = feed_flows(E, f'f{ph}', 5, [0, 1 if ph == 'l' else E.choice(2, f'eth-{ph}?'), 1, 1, 1])
-            S.inject(ms.imol.data.rows[order.index(ph)], feed[ph])
-        sig = f'{basis}/water={tag[2]}'
+            feed[ph] = feed_flows(E, f'f{ph}', 5, [0, 1 if ph == 'l' else E.choice(2, f'eth-{ph}?'), 1, 1, 1])      # in IDS order
+            S.inject(ms.imol.data.rows[order.index(ph)], [feed[ph][R.IDS.index(c)] for c in ids])
+        form = E.pick(['MultiStream', 'imol.data', 'ndarray'], 'material')
+        if form != 'MultiStream' and (pkg != 'same' or basis != 'mol'):
+            raise core.PathAbort('bare arrays: molar flows in the order of the reaction package')
+        sig = f'{basis}/water={tag[2]}/{pkg}/{form}'
+        chems_before = ms.chemicals
+        arr = None
         try:
-            r(ms)
+            if form == 'MultiStream':
+                r(ms)
+            elif form == 'imol.data':
+                r(ms.imol.data)
+            else:
+                arr = C.array(E, [list(feed[ph]) for ph in order])
+                r(arr)
         except tmo.exceptions.InfeasibleRegion:
             would = [feed[tag[i]][i] + nu[i] * X * feed['l'][1] for i in (1, 2, 3, 4)]
             E.prove('infeasible-only-when-negative', E.any([w < 0 for w in would]), sig=sig)
             return
-        after = {ph: [ms.imol.data.rows[order.index(ph)].dct.get(i, 0.0) for i in range(5)] for ph in order}
+        E.prove('stream-package-restored', ms.chemicals is chems_before and ms.imol.data.shape == (2, len(ids)), sig=sig)
+        after = {ph: [ms.imol.data.rows[order.index(ph)].dct.get(ids.index(c), 0.0) for c in R.IDS] for ph in order}
+        if arr is not None:
+            after = {ph: list(arr[k]) for k, ph in enumerate(order)}
         tot_b = [sum(feed[ph][i] for ph in order) for i in range(5)]
         tot_a = [sum(after[ph][i] for ph in order) for i in range(5)]
         for i, a in enumerate(tot_a):
